@@ -76,6 +76,12 @@ def main():
             det = json.load(open(dp))
         c = det.get('checks', {}).get(m['property'], {})
         verdict = 'DETECTED' if c.get('detected') else ('missed' if c else 'not run')
+        for other in m.get('also_run') or []:
+            oc = det.get('checks', {}).get(other, {})
+            if oc.get('detected'):
+                verdict += '; DETECTED by %s (%s)' % (other, ', '.join('`%s`' % x for x in oc.get('sites', [])[:2]))
+        if m.get('note'):
+            verdict += ' (' + m['note'] + ')'
         if m.get('initially_missed'):
             verdict += ' (initially missed; ' + m['initially_missed'] + ')'
         out.append('| %s | %s | %s | %s | %s |\n' % (m['id'], m['property'], m['needs_to_manifest'].replace('|', '/'), verdict, ', '.join('`%s`' % s for s in c.get('sites', [])[:3])))
